@@ -281,7 +281,7 @@ pub fn gen_scalar(rng: &mut Rng) -> SVal {
             _ => f32::from_bits(rng.next() as u32),
         }),
         4 | 5 => SVal::F64(gen_f64(rng)),
-        6 => SVal::Char(*rng.pick(&['a', '"', '\\', '\n', '\u{0}', '\u{1f}', '\u{e9}', '\u{4e2d}', '\u{1F600}', '\u{10ffff}'])),
+        6 => SVal::Char(gen_char(rng)),
         7..=9 => SVal::Str(gen_str(rng)),
         10 => SVal::Unit,
         11 => SVal::None,
@@ -290,13 +290,35 @@ pub fn gen_scalar(rng: &mut Rng) -> SVal {
     }
 }
 
+/// a char of every class the writers treat differently: each control character, the two characters with a
+/// short escape, DEL, and one to four bytes of UTF-8 - the same classes for values and for map keys
+pub fn gen_char(rng: &mut Rng) -> char {
+    match rng.below(4) {
+        0 => char::from_u32(rng.below(0x20) as u32).unwrap(),
+        1 => *rng.pick(&['"', '\\', '/', '\u{7f}', '\u{8}', '\u{c}', '\n', '\r', '\t']),
+        2 => *rng.pick(&['a', 'k', ' ', '\u{e9}', '\u{80}', '\u{7ff}', '\u{800}', '\u{4e2d}', '\u{ffff}', '\u{10000}', '\u{1F600}', '\u{10ffff}', '\u{2028}', '\u{feff}']),
+        _ => loop {
+            if let Some(c) = char::from_u32(rng.below(0x11_0000) as u32) {
+                break c;
+            }
+        },
+    }
+}
+
 pub fn gen_key(rng: &mut Rng) -> SVal {
     match rng.below(10) {
         0..=4 => SVal::Str(gen_str(rng)),
-        5 => SVal::Char(*rng.pick(&['k', '"', '\u{e9}'])),
+        5 => SVal::Char(gen_char(rng)),
         6 => SVal::Bool(rng.chance(1, 2)),
-        7 => SVal::I((rng.next() as i64 >> rng.below(64)) as i128, 64),
-        8 => SVal::U((rng.next() >> rng.below(64)) as u128, 64),
+        7 => {
+            let w = *rng.pick(&[8u8, 16, 32, 64]);
+            let raw = (rng.next() as i64 >> rng.below(64)) as i128;
+            SVal::I(match w { 8 => raw as i8 as i128, 16 => raw as i16 as i128, 32 => raw as i32 as i128, _ => raw }, w)
+        }
+        8 => {
+            let w = *rng.pick(&[8u8, 16, 32, 64]);
+            SVal::U(((rng.next() >> rng.below(64)) as u128) & ((1u128 << w) - 1), w)
+        }
         _ => SVal::UnitVariant(rng.below(VARIANTS.len())),
     }
 }
